@@ -166,10 +166,10 @@ func (c *scriptCase) modelLine() string {
 		o = strings.Join(opts, ",")
 	}
 	line := fmt.Sprintf("%s %s %d %d %d %s %d %s %s%s %s %s %s", c.Op, predToken(c.Pred), c.MaxRetry, c.Min, c.Max, joinInts(c.Tbl), c.Dflt, cn, c.Manifest, c.Body, d, sc, o)
-	if c.Op == "Q" {
+	if c.Op == "Q" || c.Op == "Z" {
 		tb := "G"
 		if c.TokenPost {
-			tb = "P" + hex.EncodeToString([]byte(tokenForm))
+			tb = "P" + hex.EncodeToString([]byte(c.tokenFormOf()))
 		}
 		ts := "-"
 		if len(c.TokenScript) > 0 {
@@ -270,6 +270,16 @@ func (b behaviour) shape() *errShape {
 // the form fetchOAuth2Token posts for the credential, service and scope of these cases
 const tokenForm = "client_id=oras-go&grant_type=password&password=p&scope=repository%3Ar%3Apull&service=scripted&username=u"
 
+// within a push the request's context carries the push's scope, which the form then names
+const tokenFormPush = "client_id=oras-go&grant_type=password&password=p&scope=repository%3Ar%3Apull%2Cpush&service=scripted&username=u"
+
+func (c *scriptCase) tokenFormOf() string {
+	if c.Op == "Z" {
+		return tokenFormPush
+	}
+	return tokenForm
+}
+
 const indexedManifestJSON = `{"schemaVersion":2,"mediaType":"application/vnd.oci.image.manifest.v1+json","config":{"mediaType":"application/vnd.oci.empty.v1+json","digest":"sha256:44136fa355b3678a1146ad16f7e8649e94fb4fc21fe77e8310c060f61caaff8a","size":2},"layers":[]}`
 
 var errPred = errors.New("scripted: predicate refuses this answer")
@@ -280,6 +290,7 @@ type attemptRec struct {
 	auth string // Authorization header of the request
 	method string
 	ctxEnded bool // the request's context had already ended when the request reached the server
+	seq        int // position in the order in which the scripted transport saw all requests of the case
 	url, ctype string
 	clen       int64 // Request.ContentLength as the transport would frame the body
 	beh  behaviour
@@ -300,6 +311,7 @@ type server struct {
 	tokenScript   []behaviour
 	tokenPos      int
 	tokenLog      []attemptRec
+	seq           int
 	lastToken     bool // the last scripted request went to the token service
 }
 
@@ -329,6 +341,8 @@ func (s *server) RoundTrip(req *http.Request) (*http.Response, error) {
 			req.Body.Close()
 		}
 		rec.ctxEnded = req.Context().Err() != nil
+		s.seq++
+		rec.seq = s.seq
 		s.tokenLog = append(s.tokenLog, rec)
 		s.lastToken, s.lastShape, s.lastCode = true, nil, 0
 		if rec.ctxEnded {
@@ -384,6 +398,8 @@ func (s *server) RoundTrip(req *http.Request) (*http.Response, error) {
 		req.Body.Close()
 	}
 	rec.ctxEnded = req.Context().Err() != nil
+	s.seq++
+	rec.seq = s.seq
 	s.log = append(s.log, rec)
 	if rec.ctxEnded {
 		// like net/http's transport: nothing is done for a request whose context has ended
@@ -580,11 +596,11 @@ func execScript(t *testing.T, c *scriptCase) (obs scriptObs) {
 	synctest.Test(t, func(t *testing.T) {
 		srv := &server{start: time.Now(), script: c.Script}
 		var authClient *auth.Client
-		if c.Op == "A" || c.Op == "W" || c.Op == "V" || c.Op == "U" || c.Op == "X" || c.Op == "Q" || c.Op == "Y" || c.PreAuth {
+		if c.Op == "A" || c.Op == "W" || c.Op == "V" || c.Op == "U" || c.Op == "X" || c.Op == "Q" || c.Op == "Y" || c.Op == "Z" || c.PreAuth {
 			authClient = &auth.Client{Cache: auth.NewCache(),
 				Credential: auth.StaticCredential("registry.example", auth.Credential{Username: "u", Password: "p"})}
 		}
-		if c.Op == "Q" {
+		if c.Op == "Q" || c.Op == "Z" {
 			// the token request is part of the case: scripted token service, GET or OAuth2 POST
 			srv.tokenScripted, srv.tokenScript = true, c.TokenScript
 			authClient.ForceAttemptOAuth2 = c.TokenPost
@@ -677,11 +693,11 @@ func execScript(t *testing.T, c *scriptCase) (obs scriptObs) {
 				if err == nil {
 					obs.res = "RESP201"
 				} else {
-					obs.res = classify(nil, err, srv.lastShape, srv.rewindHint(c))
+					obs.res = classifyTok(nil, err, srv.lastShape, srv.rewindHint(c), srv.lastToken)
 				}
 				return
 			}
-			if c.Op == "U" || c.Op == "u" || c.Op == "X" {
+			if c.Op == "U" || c.Op == "u" || c.Op == "X" || c.Op == "Z" {
 				// blob push through the Repository: POST (no body), then PUT with the blob
 				repo, err := remote.NewRepository("registry.example/r")
 				if err != nil {
@@ -699,7 +715,7 @@ func execScript(t *testing.T, c *scriptCase) (obs scriptObs) {
 				if err == nil {
 					obs.res = "RESP201"
 				} else {
-					obs.res = classify(nil, err, srv.lastShape, srv.rewindHint(c))
+					obs.res = classifyTok(nil, err, srv.lastShape, srv.rewindHint(c), srv.lastToken)
 				}
 				return
 			}
@@ -724,7 +740,7 @@ func execScript(t *testing.T, c *scriptCase) (obs scriptObs) {
 				if err == nil {
 					obs.res = "RESP201"
 				} else {
-					obs.res = classify(nil, err, srv.lastShape, srv.rewindHint(c))
+					obs.res = classifyTok(nil, err, srv.lastShape, srv.rewindHint(c), srv.lastToken)
 				}
 				return
 			}
@@ -844,14 +860,14 @@ func scriptCaseRun(t *testing.T, c *scriptCase) {
 	}
 	var form []byte
 	if c.TokenPost {
-		form = []byte(tokenForm)
+		form = []byte(c.tokenFormOf())
 	}
 	if c.Op == "Q" {
 		line = fmt.Sprintf("%s end=%d first=%s token=%s second=%s", obs.res, obs.end, showAttempts(sends[0], data),
 			showAttempts(obs.tokenLog, form), showAttempts(sends[1], data))
 		run.Count(fmt.Sprintf("token_attempts_%d", len(obs.tokenLog)))
 	}
-	upload := c.Op == "U" || c.Op == "u" || c.Op == "X" || c.Op == "Y" || c.Op == "y"
+	upload := c.Op == "U" || c.Op == "u" || c.Op == "X" || c.Op == "Y" || c.Op == "y" || c.Op == "Z"
 	if upload {
 		// sends of a blob push: POST (as sent first / re-sent after a challenge), PUT (same)
 		sends = make([][]attemptRec, 4)
@@ -869,6 +885,10 @@ func scriptCaseRun(t *testing.T, c *scriptCase) {
 		}
 		line = fmt.Sprintf("%s end=%d post=%s|%s put=%s|%s", obs.res, obs.end, showAttempts(sends[0], nil), showAttempts(sends[1], nil),
 			showAttempts(sends[2], data), showAttempts(sends[3], data))
+		if c.Op == "Z" {
+			line += " tok=" + showAttempts(obs.tokenLog, form)
+			run.Count(fmt.Sprintf("token_attempts_%d", len(obs.tokenLog)))
+		}
 	}
 	if c.DefaultPolicy {
 		run.Evaluations++
@@ -964,7 +984,15 @@ func scriptCaseRun(t *testing.T, c *scriptCase) {
 	if c.Op == "T" && len(sends[1]) > 0 {
 		fail("wrong-result", "the Authorization header changed between attempts of a plain transport")
 	}
-	for si, send := range append(append([][]attemptRec(nil), sends...), obs.tokenLog) {
+	// token requests: one send per fetch (a push may fetch twice: consecutive runs in the request order)
+	var tokenSends [][]attemptRec
+	for i, r := range obs.tokenLog {
+		if i == 0 || r.seq != obs.tokenLog[i-1].seq+1 {
+			tokenSends = append(tokenSends, nil)
+		}
+		tokenSends[len(tokenSends)-1] = append(tokenSends[len(tokenSends)-1], r)
+	}
+	for si, send := range append(append([][]attemptRec(nil), sends...), tokenSends...) {
 		if len(send) > limit {
 			fail("too-many-attempts", fmt.Sprintf("send %d made %d attempts, MaxRetry=%d", si, len(send), c.MaxRetry))
 		}
@@ -1029,7 +1057,8 @@ func scriptCaseRun(t *testing.T, c *scriptCase) {
 		}
 	}
 	// O7 (op Q, the call ended with the token request): the token service's last answer decides
-	if c.Op == "Q" && obs.res != "ECTX" && len(obs.tokenLog) > 0 && len(sends[1]) == 0 {
+	tokenWasLast := len(obs.tokenLog) > 0 && (len(obs.log) == 0 || obs.tokenLog[len(obs.tokenLog)-1].seq > obs.log[len(obs.log)-1].seq)
+	if (c.Op == "Q" || c.Op == "Z") && obs.res != "ECTX" && tokenWasLast {
 		tl := obs.tokenLog[len(obs.tokenLog)-1]
 		var want []string
 		switch {
@@ -1076,7 +1105,7 @@ func scriptCaseRun(t *testing.T, c *scriptCase) {
 		rewindErr := obs.res == "ENOTREWINDABLE" && c.Body[0] == 'O' || obs.res == "EGETBODY" && c.Body[0] == 'G'
 		if !ok && rewindErr && upload {
 			// blob push: the PUT was challenged (it did not inherit credentials from the POST)
-			if (c.Op == "U" || c.Op == "X" || c.Op == "Y") && last.beh.Kind == "S" && last.beh.Code == 401 && (last.beh.Chal == 1 || last.beh.Chal == 2) &&
+			if (c.Op == "U" || c.Op == "X" || c.Op == "Y" || c.Op == "Z") && last.beh.Kind == "S" && last.beh.Code == 401 && (last.beh.Chal == 1 || last.beh.Chal == 2) &&
 				len(sends[1]) == 0 && len(sends[2]) > 0 && len(sends[3]) == 0 {
 				ok = true
 			}
@@ -1301,7 +1330,7 @@ func genDuration(r *common.Rand) int64 {
 }
 
 func genScript(r *common.Rand, big bool) *scriptCase {
-	c := &scriptCase{Op: common.Pick(r, []string{"T", "T", "T", "A", "A", "A", "W", "W", "V", "V", "U", "U", "u", "X", "X", "Q", "Q", "Q", "Y", "y"}), Cancel: -1}
+	c := &scriptCase{Op: common.Pick(r, []string{"T", "T", "T", "A", "A", "A", "W", "W", "V", "V", "U", "U", "u", "X", "X", "Q", "Q", "Q", "Y", "y", "Z", "Z"}), Cancel: -1}
 	c.MaxRetry = common.Pick(r, []int{0, 1, 2, 3, 3, 5, 5, 8, -1})
 	c.Min = genDuration(r)
 	if c.Min < 0 && r.Chance(3, 4) {
@@ -1361,7 +1390,7 @@ func genScript(r *common.Rand, big bool) *scriptCase {
 	if (c.Body == "R" || c.Body == "O") && !c.UnknownLen && !c.PreAuth && c.Method == "" && r.Chance(1, 3) {
 		// manifest push through the Repository: M = auth client, m = plain retrying client
 		c.Manifest = map[string]string{"A": "M", "T": "m"}[c.Op]
-		if c.Manifest != "" && r.Chance(1, 3) {
+		if c.Manifest != "" && c.BigLen == 0 && r.Chance(1, 3) {
 			// an OCI image manifest without subject (valid JSON: the client looks for a subject after the push)
 			c.Manifest = map[string]string{"M": "I", "m": "i"}[c.Manifest]
 			c.Data = hex.EncodeToString([]byte(indexedManifestJSON))
@@ -1391,7 +1420,7 @@ func genScript(r *common.Rand, big bool) *scriptCase {
 			c.Data = common.Pick(r, []string{"00010203", "0001020304"})
 		}
 	}
-	if c.Op == "U" || c.Op == "u" || c.Op == "X" || c.Op == "Y" || c.Op == "y" {
+	if c.Op == "U" || c.Op == "u" || c.Op == "X" || c.Op == "Y" || c.Op == "y" || c.Op == "Z" {
 		// blob push: some answers for the POST, its 202, some answers for the PUT, its 201
 		if c.Body != "R" && c.Body != "O" {
 			c.Body = common.Pick(r, []string{"R", "O"})
@@ -1402,13 +1431,33 @@ func genScript(r *common.Rand, big bool) *scriptCase {
 		c.UnknownLen, c.Method, c.PreAuth, c.Manifest = false, "", false, ""
 		var sc []behaviour
 		for i := r.Intn(3); i > 0; i-- {
-			sc = append(sc, genBehaviour(r, c.Op != "u", true))
+			sc = append(sc, genBehaviour(r, c.Op != "u" && c.Op != "y", true))
 		}
 		sc = append(sc, behaviour{Kind: "S", Code: 202, Read: -1, Lat: int64(r.Intn(20)) * 2})
 		for i := r.Intn(4); i > 0; i-- {
-			sc = append(sc, genBehaviour(r, c.Op != "u", true))
+			sc = append(sc, genBehaviour(r, c.Op != "u" && c.Op != "y", true))
 		}
 		c.Script = append(sc, behaviour{Kind: "S", Code: 201, Read: -1})
+	}
+	if c.Op == "Z" {
+		// a push whose POST (and sometimes PUT) is challenged, with a token service that needs a few attempts
+		c.TokenPost = r.Chance(1, 2)
+		if r.Chance(3, 4) {
+			c.Script = append([]behaviour{{Kind: "S", Code: 401, Chal: 2, Read: -1, Lat: int64(r.Intn(10)) * 2}}, c.Script...)
+		}
+		for i := r.Intn(5); i > 0; i-- {
+			b := genBehaviour(r, false, true)
+			if b.Kind == "S" && b.Code >= 300 && b.Code < 400 {
+				b.Code = 503
+			}
+			if b.Read >= 0 {
+				b.Read = r.Intn(130)
+			}
+			c.TokenScript = append(c.TokenScript, b)
+		}
+		if r.Chance(3, 4) {
+			c.TokenScript = append(c.TokenScript, behaviour{Kind: "S", Code: 200, Read: -1, Lat: int64(r.Intn(30)) * 2})
+		}
 	}
 	if c.Op == "Q" {
 		// a Bearer challenge early on, and a token service that needs a few attempts
@@ -1981,7 +2030,7 @@ func replayCases(t *testing.T) {
 			continue
 		}
 		switch head.Op {
-		case "T", "A", "W", "V", "U", "u", "X", "Q", "Y", "y":
+		case "T", "A", "W", "V", "U", "u", "X", "Q", "Y", "y", "Z":
 			var c scriptCase
 			if err := json.Unmarshal(js, &c); err != nil {
 				panic(err)
@@ -2153,7 +2202,7 @@ func coverageFloors(t *testing.T) {
 		"enumerated": 1000, "enumerated_cancel_instants": 500, "enumerated_uploads": 1000, "enumerated_manifest": 20,
 		"point_BD": 500, "point_BP": 3000, "point_DP": 1000, "point_seen_W": 2000, "point_seen_FAIL": 100,
 		"real_transport": 4, "real_transport_complete_bodies": 2, "token_scenarios": 100, "oracle_only_default_policy": 100,
-		"token_attempts_2": 20, "parse_int": 2000, "parse_int_nonzero": 1000, "enumerated_tokens": 300, "op_Y": 50, "op_y": 50,
+		"token_attempts_2": 20, "parse_int": 2000, "parse_int_nonzero": 1000, "enumerated_tokens": 300, "op_Y": 50, "op_y": 50, "op_Z": 80,
 	}
 	var low []string
 	for k, min := range floors {
